@@ -154,6 +154,14 @@ def _used_elsewhere(mido, t, d):
             x.time = 4
         mido.Message.from_str(str(a))
         mido.Message.from_dict(a.dict())
+        # echoed at a prompt, logged with %r, shown as part of a track / a file
+        for _ in range(2):
+            repr(a)
+            repr(a.copy(time=5))
+            '%r %s' % (a, a)
+        repr(tr)
+        repr(mid)
+        len(a), a.hex(), a.bin(), a == a.copy(), a.is_realtime
         from mido.frozen import freeze_message
         hash(freeze_message(a))
     except Exception:
